@@ -315,6 +315,12 @@ class Body:
                 s = [t["t"]]
             elif k == "switch":
                 s = [x[1] for x in t["targets"]] + [t["otherwise"]]
+                # a branch on a literal — what a helper called with `true` / `false` looks like after inlining (its parameter becomes
+                # an assignment of the constant): only the matching arm can run
+                cv = self._const_of_operand(t["discr"])
+                if cv is not None:
+                    hit = [tg for v, tg in t["targets"] if v == cv]
+                    s = [hit[0]] if hit else [t["otherwise"]]
             elif k in ("call", "assert", "drop"):
                 s = [t["t"]] if t.get("t") is not None else []
             else:
@@ -330,6 +336,34 @@ class Body:
             for x in ss:
                 pred[x].append(i)
         self._succ, self._pred = succ, pred
+
+    def _const_of_operand(self, o, depth=0):
+        """integer value of an operand that is a literal, or a local defined exactly once by a literal / a copy of such a local"""
+        if o.get("k") == "const" and "val" in o and "uneval" not in o:
+            try:
+                return int(o["val"])
+            except (TypeError, ValueError):
+                return None
+        if o.get("k") in ("copy", "move") and "p" not in o["pl"] and depth < 4:
+            l = o["pl"]["l"]
+            if 1 <= l <= self.arg_count:
+                return None
+            n_defs = 0
+            rv0 = None
+            for blk in self.blocks:
+                if blk["cleanup"]:
+                    continue
+                for st in blk["stmts"]:
+                    if st["k"] == "assign" and st["lhs"]["l"] == l:
+                        n_defs += 1
+                        rv0 = st["rv"] if "p" not in st["lhs"] else None
+                tm = blk["term"]
+                if tm["k"] == "call" and tm["dest"]["l"] == l:
+                    n_defs += 1
+                    rv0 = None
+            if n_defs == 1 and rv0 is not None and rv0.get("k") == "use":
+                return self._const_of_operand(rv0["op"], depth + 1)
+        return None
 
     def succ(self, bb):
         if self._succ is None:
